@@ -12,6 +12,7 @@
   delete_resource          : (C10 contract) descriptors and streams filtered with the same matcher, dropped streams drained
   iterable_loader / load / sources . process_resources : existing streams first (untouched), new streams appended
 """
+from contracts.common import fn_named
 from contracts.common import (same_stream, Item, mk_resource, mk_package2, resource_desc, run_spec, ghost_row, expect_no_raise_or_same,
                               row_transducer, _b, selector, tree_writes_under)
 from contracts import C10 as K10
@@ -200,7 +201,7 @@ def sym_concatenate_func(vc):
                         check(it, 'unselected-same-object' + tag, same_stream(it, y, r) and r.stream.drained is False)
                     else:
                         n = env.lookup('num_concatenated')
-                        ok = isinstance(y, GenObj) and y.fn.name == 'concatenator'
+                        ok = isinstance(y, GenObj) and fn_named(y, 'concatenator')
                         if ok:
                             ch = y.args[0]
                             parts = getattr(ch, 'parts', None)
@@ -303,11 +304,11 @@ def sym_duplicate_func(vc):
                     if mode == 'other':
                         check(it, 'other-stream-same-object' + tag, len(ys) == 1 and same_stream(it, ys[0].obj, r) and r.stream.drained is False)
                     else:
-                        ok = len(ys) >= 1 and isinstance(ys[0].obj, GenObj) and ys[0].obj.fn.name == 'saver' and \
+                        ok = len(ys) >= 1 and isinstance(ys[0].obj, GenObj) and fn_named(ys[0].obj, 'saver') and \
                             ys[0].obj.args[0] is r and len(dbs_made) >= 1 and ys[0].obj.args[1] is dbs_made[-1]
                         check(it, 'original-goes-through-the-saver' + tag, ok)
                         if not to_end:
-                            ok2 = len(ys) == 2 and isinstance(ys[1].obj, GenObj) and ys[1].obj.fn.name == 'loader' and \
+                            ok2 = len(ys) == 2 and isinstance(ys[1].obj, GenObj) and fn_named(ys[1].obj, 'loader') and \
                                 ys[1].obj.args[0] is dbs_made[-1]
                             check(it, 'copy-replayed-right-after' + tag, ok2)
                         else:
